@@ -387,13 +387,13 @@ def poly_constrained_dual(f, gts, eqs, p=0, q=1, ell=0, X=None, slacks=False):
     v = cl.Variable(shape=(lagrangian.m, 1), name='v')
     metadata['v_poly'] = v
     constraints = relative_dual_sage_poly_cone(lagrangian, v, 'Lagrangian', log_AbK=X)
-    for s_g, g in ineq_lag_mults:
+    for k, (s_g, g) in enumerate(ineq_lag_mults):
         # These generalized Lagrange multipliers "s_g" are SAGE polynomials.
         # For each such multiplier, introduce an appropriate dual variable "v_g", along
         # with constraints over that dual variable.
         g_m = g * modulator
         c_g = sym_corr.moment_reduction_array(s_g, g_m, lagrangian)
-        name_base = 'v_{%s}' % str(g)
+        name_base = 'v_{%s}[%d]' % (str(g), k)
         if slacks:
             v_g = cl.Variable(name=name_base, shape=(s_g.m, 1))
             con = c_g @ v == v_g
@@ -505,15 +505,15 @@ def make_poly_lagrangian(f, gts, eqs, p, q):
     alpha_multiplier = np.vstack([2 * alpha_E_p, alpha_E_p])
     alpha_multiplier = np.unique(alpha_multiplier, axis=0)
     ineq_dual_polys = []
-    for g in folded_gt:
-        s_g_coeff = cl.Variable(name='s_{%s}' % str(g), shape=(alpha_multiplier.shape[0],))
+    for k, g in enumerate(folded_gt):
+        s_g_coeff = cl.Variable(name='s_{%s}[%d]' % (str(g), k), shape=(alpha_multiplier.shape[0],))
         s_g = Polynomial(alpha_multiplier, s_g_coeff)
         L -= s_g * g
         ineq_dual_polys.append((s_g, g))
     eq_dual_polys = []
     folded_eq = con_gen.up_to_q_fold_cons(eqs, q)
-    for g in folded_eq:
-        z_g_coeff = cl.Variable(name='z_{%s}' % str(g), shape=(alpha_multiplier.shape[0],))
+    for k, g in enumerate(folded_eq):
+        z_g_coeff = cl.Variable(name='z_{%s}[%d]' % (str(g), k), shape=(alpha_multiplier.shape[0],))
         z_g = Polynomial(alpha_multiplier, z_g_coeff)
         L -= z_g * g
         eq_dual_polys.append((z_g, g))
